@@ -97,8 +97,16 @@ def _is_function_value(v: ast.AST) -> bool:
 def _only_called(fnode, name: str) -> bool:
     """Every use of ``name`` in the function is as the callee of a call."""
     called = {id(n.func) for n in ast.walk(fnode) if isinstance(n, ast.Call) and isinstance(n.func, ast.Name) and n.func.id == name}
+    # ... or as the operand of an `is None` / `is not None` test (an optional
+    # callable: `1 if weight is None else weight(op)`), decided once the
+    # argument is known
+    tested = {
+        id(n.left) for n in ast.walk(fnode)
+        if isinstance(n, ast.Compare) and len(n.ops) == 1 and isinstance(n.ops[0], (ast.Is, ast.IsNot)) and isinstance(n.left, ast.Name)
+        and n.left.id == name and isinstance(n.comparators[0], ast.Constant) and n.comparators[0].value is None
+    }
     uses = [n for n in ast.walk(fnode) if isinstance(n, ast.Name) and n.id == name]
-    return bool(uses) and all(id(u) in called for u in uses)
+    return bool(uses) and bool(called) and all(id(u) in called or id(u) in tested for u in uses)
 
 
 class _BetaReduce(ast.NodeTransformer):
@@ -161,6 +169,17 @@ def _const_truth(t):
         if any(v is True for v in vs):
             return True
         return False if all(v is False for v in vs) else None
+    # a lambda, a display, or an operator.attrgetter/itemgetter/partial call is never None
+    if (
+        isinstance(t, ast.Compare) and len(t.ops) == 1 and isinstance(t.ops[0], (ast.Is, ast.IsNot))
+        and isinstance(t.comparators[0], ast.Constant) and t.comparators[0].value is None
+    ):
+        l = t.left
+        notnone = isinstance(l, (ast.Lambda, ast.Tuple, ast.List, ast.Dict, ast.Set, ast.ListComp, ast.DictComp, ast.SetComp, ast.JoinedStr)) or (
+            isinstance(l, ast.Call) and (ast.unparse(l.func).rsplit(".", 1)[-1] in ("attrgetter", "itemgetter", "partial", "methodcaller"))
+        )
+        if notnone:
+            return isinstance(t.ops[0], ast.IsNot)
     if isinstance(t, ast.Compare) and len(t.ops) == 1 and isinstance(t.left, ast.Constant) and isinstance(t.comparators[0], ast.Constant):
         a, b, op = t.left.value, t.comparators[0].value, t.ops[0]
         if isinstance(op, (ast.Is, ast.Eq)) and (a is None or b is None or type(a) is type(b)):
@@ -170,7 +189,21 @@ def _const_truth(t):
     return None
 
 
+class _FoldIfExp(ast.NodeTransformer):
+    """`a if <decided test> else b` -> the branch taken."""
+
+    def visit_IfExp(self, n):
+        self.generic_visit(n)
+        v = _const_truth(n.test)
+        if v is True:
+            return n.body
+        if v is False:
+            return n.orelse
+        return n
+
+
 def _prune_constant_ifs(stmts):
+    stmts = [_FoldIfExp().visit(x) for x in stmts]
     out = []
     for x in stmts:
         if isinstance(x, ast.If):
@@ -270,6 +303,33 @@ def _kwarg_only_forwarded(fnode, name: str) -> bool:
         if isinstance(n, ast.Name) and n.id == name and id(n) not in fwd:
             return False
     return True
+
+
+def _vararg_only_forwarded(fnode, name: str) -> bool:
+    """The ``*name`` parameter is used only as ``g(..., *name)``."""
+    fwd = set()
+    for n in ast.walk(fnode):
+        if isinstance(n, ast.Call):
+            for x in n.args:
+                if isinstance(x, ast.Starred) and isinstance(x.value, ast.Name) and x.value.id == name:
+                    fwd.add(id(x.value))
+    uses = [n for n in ast.walk(fnode) if isinstance(n, ast.Name) and n.id == name]
+    return bool(uses) and all(id(n) in fwd for n in uses)
+
+
+def _expand_vararg(body, name: str, extra: list[ast.expr]):
+    """Replaces ``*name`` in the calls of ``body`` by the positional arguments
+    the caller passed beyond the named parameters."""
+    for st in body:
+        for n in ast.walk(st):
+            if isinstance(n, ast.Call):
+                new = []
+                for x in n.args:
+                    if isinstance(x, ast.Starred) and isinstance(x.value, ast.Name) and x.value.id == name:
+                        new += [copy.deepcopy(e) for e in extra]
+                    else:
+                        new.append(x)
+                n.args = new
 
 
 def _expand_kwarg(body, name: str, extra: list[ast.keyword]):
@@ -557,7 +617,7 @@ class Normalizer:
         for p, d in zip(kwonly, a.kw_defaults):
             if d is not None:
                 defaults[p] = d
-        if a.vararg:
+        if a.vararg and not _vararg_only_forwarded(t.node, a.vararg.arg):
             return None
         if a.kwarg and not _kwarg_only_forwarded(t.node, a.kwarg.arg):
             return None
@@ -677,6 +737,9 @@ class Normalizer:
             known = {p.arg for p in t.node.args.posonlyargs + t.node.args.args + t.node.args.kwonlyargs}
             extra = [k for k in call.keywords if k.arg not in known]
             _expand_kwarg(body, t.node.args.kwarg.arg, extra)
+        if t.node.args.vararg is not None:
+            n_named = len(t.node.args.posonlyargs + t.node.args.args) - (1 if t.cls is not None and not t.is_static else 0)
+            _expand_vararg(body, t.node.args.vararg.arg, list(call.args[n_named:]))
         # argument expressions keep the module they were written in (their
         # types and global names are looked up there, not in the helper's module)
         site_mod = getattr(call, "_origin_mod", None) or fi.module.name
@@ -710,6 +773,7 @@ class Normalizer:
         # flags passed as literals decide their branches (`if with_job_nodes:`
         # with with_job_nodes=False at this call)
         body = _prune_constant_ifs(body)
+        body = [_BetaReduce().visit(x) for x in body]  # attrgetter("a")(x) left behind by a folded conditional
         _simplify_bound_displays(prefix, body)
         self._unroll_reflection(fi, prefix, body)
 
@@ -1067,6 +1131,18 @@ class Normalizer:
         def wanted(e):
             return inl_call(e) or (isinstance(e, ast.ListComp) and inl_call(e.elt))
 
+        def inner_slot(e):
+            """the helper call sits under a unary / binary operator whose other
+            operand (if evaluated first) is a pure path:  -h(x),  a - h(x),  h(x) - a"""
+            if isinstance(e, ast.UnaryOp) and wanted(e.operand):
+                return (e, "operand")
+            if isinstance(e, ast.BinOp):
+                if wanted(e.left):
+                    return (e, "left")
+                if _is_path_expr(e.left) and wanted(e.right):
+                    return (e, "right")
+            return None
+
         holder = None  # (container list / node, index / field)
         if isinstance(st, ast.For):
             it = st.iter
@@ -1083,6 +1159,9 @@ class Normalizer:
                     if wanted(a):
                         holder = (value.args, i)
                         break
+                    if inner_slot(a) is not None:
+                        holder = inner_slot(a)
+                        break
                     if not _is_path_expr(a):
                         break
                 else:
@@ -1092,6 +1171,8 @@ class Normalizer:
                             break
                         if not _is_path_expr(kw.value):
                             break
+            elif isinstance(st, (ast.Assign, ast.AnnAssign, ast.Return)) and isinstance(value, (ast.UnaryOp, ast.BinOp)) and inner_slot(value) is not None:
+                holder = inner_slot(value)
             elif isinstance(st, (ast.Assign, ast.AnnAssign, ast.Return)) and isinstance(value, ast.Dict):
                 # {K1: helper(a), K2: ...}: keys and values are evaluated left to
                 # right; everything before the hoisted value must be a pure path
@@ -1229,6 +1310,7 @@ class Normalizer:
         node = copy.deepcopy(fi.node)
         if not isinstance(node, ast.Lambda):
             self._specialise_new_params(fi, node)
+            self._expand_constant_kwargs(fi, node)
             saved = getattr(self, "_caller_names", set())
             self._caller_names = {n.id for n in ast.walk(fi.node) if isinstance(n, ast.Name)} | set(fi.params)
             self._flat_root = node
@@ -1317,6 +1399,33 @@ class Normalizer:
 
         for i, st in enumerate(body):
             body[i] = ast.fix_missing_locations(Unroll().visit(st))
+
+    @staticmethod
+    def _expand_constant_kwargs(fi: FuncInfo, node) -> None:
+        """``f(x, **_STYLE)`` with ``_STYLE = {"type": EdgeType.X}`` a
+        module-level dict display with string keys that the function does not
+        rebind: the keywords are written out (`f(x, type=EdgeType.X)`)."""
+        stored = {x.id for x in ast.walk(node) if isinstance(x, ast.Name) and isinstance(x.ctx, (ast.Store, ast.Del))} | {
+            a.arg for a in ast.walk(node) if isinstance(a, ast.arg)
+        }
+        for c in ast.walk(node):
+            if not isinstance(c, ast.Call) or not any(k.arg is None for k in c.keywords):
+                continue
+            new = []
+            for k in c.keywords:
+                d = fi.module.assigns.get(k.value.id) if (k.arg is None and isinstance(k.value, ast.Name) and k.value.id not in stored) else None
+                if isinstance(d, ast.Dict) and d.keys and all(
+                    isinstance(x, ast.Constant) and isinstance(x.value, str) and x.value.isidentifier() for x in d.keys
+                ):
+                    for x, v in zip(d.keys, d.values):
+                        kw = ast.keyword(arg=x.value, value=copy.deepcopy(v))
+                        ast.copy_location(kw, k.value)
+                        for y in ast.walk(kw.value):
+                            ast.copy_location(y, k.value)
+                        new.append(kw)
+                else:
+                    new.append(k)
+            c.keywords = new
 
     @staticmethod
     def _specialise_new_params(fi: FuncInfo, node) -> None:
